@@ -25,7 +25,7 @@ def grammar_opcodes():
     return re.findall(r'"([A-Z0-9]+)"', m.group(1))
 
 
-def run_cells(ctx, cells_by_bits, batch=40, org=0x7c00, R=None):
+def run_cells(ctx, cells_by_bits, batch=40, org=0x7c00, R=None, preambles=((),)):
     """cells_by_bits: {16: [stmt...], 32: [stmt...]}.  Each batch: ORG, [BITS], (label, cell)*, end label.
     A batch that does not parse is re-run cell by cell (the offending cell is then isolated)."""
     R = R or flow.Runner(ctx)
@@ -35,11 +35,12 @@ def run_cells(ctx, cells_by_bits, batch=40, org=0x7c00, R=None):
     for bits, cells in cells_by_bits.items():
         plain = [c for c in cells if '"lbl0"' not in json.dumps(c)]
         withl = [c for c in cells if '"lbl0"' in json.dumps(c)]
-        for stmts, where in flow.batch_cells(plain, batch, org=org, bits=(32 if bits == 32 else None)):
-            plan.append((R.add(stmts), bits, stmts, where))
-        for o in (org, 0xc200, 0):
-            for stmts, where in flow.batch_cells(withl, batch, org=o, bits=(32 if bits == 32 else None), prefix=lbl):
+        for pre in preambles:       # (directives in front of the cells, e.g. [INSTRSET "i486p"]: they must not change any encoding)
+            for stmts, where in flow.batch_cells(plain, batch, org=org, bits=(32 if bits == 32 else None), prefix=list(pre)):
                 plan.append((R.add(stmts), bits, stmts, where))
+            for o in (org, 0xc200, 0):
+                for stmts, where in flow.batch_cells(withl, batch, org=o, bits=(32 if bits == 32 else None), prefix=list(pre) + lbl):
+                    plan.append((R.add(stmts), bits, stmts, where))
     R.run()
     redo = []
     for cid, bits, stmts, where in plan:
